@@ -272,6 +272,7 @@ SPEC = {
         T + "lockset_sound", T + "lockset_discipline_race_free",
         T + "engine_access_table_safe", T + "lockedOnEntry_consistent", T + "locked_is_held_or_entry",
         T + "lock_contracts_respected", T + "access_shapes_recognised", T + "engine_locked_accesses_ordered",
+        T + "shared_expression_objects_are_read_only",
     ],
     "pins": [],
     "streams": [
